@@ -3,79 +3,44 @@ panel transformers as Gallina definitions (build/coq/C14/Gen.v).  The committed 
 proves, for all arguments, that the hand model of coq/C14/Model.v is built from exactly these
 expressions, so that an off-by-one edit of the source breaks a proof obligation.
 
-Regenerated (expressions):
+How (round 2: by DATA FLOW, not by statement position / text): every anchored method is executed
+symbolically (translator/symeval_c14.py) and summarised by its returned term, the attributes it
+stores, its raise sites and the opaque calls it makes, with locals substituted away and private
+helpers inlined.  The summary is matched against the summary of a REFERENCE implementation (a few
+lines of Python below, run through the same evaluator) in which the regenerated expressions are
+HOLES (`_H_name`); the sub-terms bound to the holes are translated to Z / Q expressions.  So the
+tie survives any rewrite the evaluator normalises away (renamed locals, temporaries, extracted
+helpers, guard clauses, loops vs comprehensions vs generators vs map(lambda), tuple unpacking,
+statement reordering without data dependence, ...) and fails closed (Unsupported) on everything
+else; a change of a regenerated expression changes Gen.v and must be re-proved by Bridge.v.
+
+Regenerated:
   padder.py        np.full length, copy upper bound, rejection test
   truncation.py    rejection test, np.arange bounds of both branches
   interpolate.py   the two np.linspace grids (knots / query points)
   segment.py       IntervalSegmenter rejection test, [start, end) of a chunk (fit) composed with
                    the slice bounds of transform; SlidingWindowSegmenter pad amount, padded
-                   length, window shape and strides
-  _paa.py          parameter tests, frame length, the WHOLE body of the running-sum loop (as a
-                   state transformer obtained by symbolic execution), the lost-last-frame test
+                   length, window shape and strides, parameter test
+  _paa.py          parameter tests, frame length, the WHOLE running-sum loop as a state
+                   transformer (state variables identified by their ROLE in the result: returned
+                   list, counter of the lost-frame test, numerator of the tail, the other one),
+                   the lost-last-frame test and tail
   _extract.py      allocation width, loop nesting (column position of feature f / interval v),
                    slice bounds
-  impute.py        data flow of the drift branch (what the trend is fitted on, what is filled),
-                   the pandas call of every closed-form method (pinned)
-
-Fail-closed: every function is walked statement by statement; an unknown, missing, extra or
-reordered statement raises Unsupported (a broken tie for the harness).  Only what is listed above is
-regenerated; numpy / pandas / scipy primitives (np.full, slicing, np.pad(mode="edge"), as_strided,
-np.array_split, np.linspace, interp1d, fillna, interpolate) are modelled by hand in Model.v and
-tied by the correspondence run.
+  impute.py        data flow of the drift branch (what the trend is fitted on, what is filled);
+                   all other branches must equal the reference (pandas call per method)
+numpy / pandas / scipy primitives stay hand-modelled in Model.v (tied by the correspondence run).
 """
 import ast
 import os
 
-
-class Unsupported(Exception):
-    pass
-
-
-def _u(node):
-    return ast.unparse(node)
+from translator.symeval_c14 import (C, NONE, Ev, Match, Unsupported, canon, has, is_term, show,
+                                    subst, walk)
 
 
-def _need(cond, what, node=None):
+def _need(cond, what, t=None):
     if not cond:
-        raise Unsupported("%s%s" % (what, (": " + _u(node)) if node is not None else ""))
-
-
-def _find(mod, path):
-    node = mod
-    for p in path.split("."):
-        for n in node.body:
-            if isinstance(n, (ast.FunctionDef, ast.ClassDef)) and n.name == p:
-                node = n
-                break
-        else:
-            raise Unsupported("missing " + path)
-    return node
-
-
-def _body(fn):
-    b = list(fn.body)
-    if b and isinstance(b[0], ast.Expr) and isinstance(getattr(b[0], "value", None), ast.Constant) \
-            and isinstance(b[0].value.value, str):
-        b = b[1:]
-    return b
-
-
-def _assign(st, target):
-    _need(isinstance(st, ast.Assign) and len(st.targets) == 1 and _u(st.targets[0]) == target,
-          "expected assignment to " + target, st)
-    return st.value
-
-
-def _same(st, text, what):
-    _need(" ".join(_u(st).split()) == " ".join(text.split()), what + ": expected `%s`" % text, st)
-
-
-def _raises(st, exc="ValueError"):
-    """`if test: raise exc(...)` -> test"""
-    _need(isinstance(st, ast.If) and not st.orelse and len(st.body) == 1
-          and isinstance(st.body[0], ast.Raise) and st.body[0].exc is not None
-          and _u(st.body[0].exc).startswith(exc + "("), "expected `if ...: raise %s(...)`" % exc, st)
-    return st.test
+        raise Unsupported("%s%s" % (what, (": " + show(t)[:400]) if t is not None else ""))
 
 
 def _load(repo, rel):
@@ -83,39 +48,105 @@ def _load(repo, rel):
         return ast.parse(f.read())
 
 
+def E(ev, src, **env):
+    """term of a Python expression in an environment of terms"""
+    return ev.expr(ast.parse(src, mode="eval").body, dict(env))
+
+
+SELF = ("s", "self")
+
+
+def attr(name):
+    return ("a", SELF, name)
+
+
 # ------------------------------------------------------------------------------------------------
-# integer expressions -> Z
+# terms -> Gallina
 
 
-def _zexpr(e, env):
-    if isinstance(e, ast.Constant) and isinstance(e.value, int) and not isinstance(e.value, bool):
-        return "(%d)" % e.value
-    if isinstance(e, (ast.Name, ast.Attribute, ast.Call, ast.Subscript)):
-        u = _u(e)
-        if u in env:
-            return env[u]
-    if isinstance(e, ast.Call) and _u(e.func) == "math.floor" and len(e.args) == 1 \
-            and not e.keywords and isinstance(e.args[0], ast.BinOp) and isinstance(e.args[0].op, ast.Div):
-        # floor of the true quotient of two non-negative ints = Z.div (the Bridge states w >= 0)
-        return "(%s / %s)" % (_zexpr(e.args[0].left, env), _zexpr(e.args[0].right, env))
-    if isinstance(e, ast.UnaryOp) and isinstance(e.op, ast.USub):
-        return "(- %s)" % _zexpr(e.operand, env)
-    if isinstance(e, ast.BinOp) and type(e.op) in (ast.Add, ast.Sub, ast.Mult, ast.FloorDiv):
-        op = {ast.Add: "+", ast.Sub: "-", ast.Mult: "*", ast.FloorDiv: "/"}[type(e.op)]
-        return "(%s %s %s)" % (_zexpr(e.left, env), op, _zexpr(e.right, env))
-    raise Unsupported("integer expression %s" % _u(e))
+def zexpr(t, env):
+    ct = canon(t)
+    if ct in env:
+        return env[ct]
+    if t[0] == "c" and isinstance(t[1], int) and not isinstance(t[1], bool):
+        return "(%d)" % t[1]
+    if t[0] == "call" and t[1] == ("a", ("s", "math"), "floor") and len(t[2]) == 1 and not t[3] \
+            and t[2][0][0] == "b" and t[2][0][1] == "Div":
+        # floor of the true quotient of non-negative ints = Z.div (Bridge states the range)
+        return "(%s / %s)" % (zexpr(t[2][0][2], env), zexpr(t[2][0][3], env))
+    if t[0] == "u" and t[1] == "USub":
+        return "(- %s)" % zexpr(t[2], env)
+    if t[0] == "b" and t[1] in ("Add", "Sub", "Mult", "FloorDiv"):
+        op = {"Add": "+", "Sub": "-", "Mult": "*", "FloorDiv": "/"}[t[1]]
+        return "(%s %s %s)" % (zexpr(t[2], env), op, zexpr(t[3], env))
+    raise Unsupported("integer expression " + show(t)[:300])
 
 
-_ZCMP = {ast.Gt: ">?", ast.GtE: ">=?", ast.Lt: "<?", ast.LtE: "<=?", ast.Eq: "=?"}
+def zcmp(t, env):
+    if t[0] == "not":
+        return "(negb %s)" % zcmp(t[1], env)
+    if t[0] == "cmp" and t[1] in ("Lt", "LtE", "Eq"):
+        op = {"Lt": "<?", "LtE": "<=?", "Eq": "=?"}[t[1]]
+        return "(%s %s %s)" % (zexpr(t[2], env), op, zexpr(t[3], env))
+    raise Unsupported("comparison " + show(t)[:300])
 
 
-def _zcmp(e, env):
-    if isinstance(e, ast.UnaryOp) and isinstance(e.op, ast.Not):
-        return "(negb %s)" % _zcmp(e.operand, env)
-    if isinstance(e, ast.Compare) and len(e.ops) == 1 and type(e.ops[0]) in _ZCMP:
-        return "(%s %s %s)" % (_zexpr(e.left, env), _ZCMP[type(e.ops[0])],
-                               _zexpr(e.comparators[0], env))
-    raise Unsupported("comparison %s" % _u(e))
+def zenv(**kv):
+    return {canon(t): n for n, t in kv.items()}
+
+
+def qexpr(t, env):
+    ct = canon(t)
+    if ct in env:
+        return env[ct]
+    if t[0] == "c" and isinstance(t[1], int) and not isinstance(t[1], bool):
+        return "(%d)" % t[1]
+    if t[0] == "b" and t[1] in ("Add", "Sub", "Mult", "Div"):
+        op = {"Add": "+", "Sub": "-", "Mult": "*", "Div": "/"}[t[1]]
+        return "(%s %s %s)" % (qexpr(t[2], env), op, qexpr(t[3], env))
+    if t[0] == "u" and t[1] == "USub":
+        return "(- %s)" % qexpr(t[2], env)
+    if t[0] == "if":
+        return "(if %s then %s else %s)" % (qcond(t[1], env), qexpr(t[2], env), qexpr(t[3], env))
+    raise Unsupported("rational expression " + show(t)[:300])
+
+
+def qcond(t, env):
+    if t[0] == "not":
+        return "(negb %s)" % qcond(t[1], env)
+    if t[0] == "cmp" and t[1] == "Lt":
+        return "(qltb %s %s)" % (qexpr(t[2], env), qexpr(t[3], env))
+    if t[0] == "cmp" and t[1] == "LtE":
+        return "(Qle_bool %s %s)" % (qexpr(t[2], env), qexpr(t[3], env))
+    if t[0] == "cmp" and t[1] == "Eq":
+        return "(Qeq_bool %s %s)" % (qexpr(t[2], env), qexpr(t[3], env))
+    raise Unsupported("rational comparison " + show(t)[:300])
+
+
+def natexpr(t, env):
+    ct = canon(t)
+    if ct in env:
+        return env[ct]
+    if t[0] == "c" and isinstance(t[1], int) and not isinstance(t[1], bool) and t[1] >= 0:
+        return "%d%%nat" % t[1]
+    if t[0] == "b" and t[1] == "Add":
+        return "(%s + %s)%%nat" % (natexpr(t[2], env), natexpr(t[3], env))
+    if t[0] == "if":
+        return "(if %s then %s else %s)" % (qcond(t[1], env["@q"]), natexpr(t[2], env),
+                                            natexpr(t[3], env))
+    raise Unsupported("counter expression " + show(t)[:300])
+
+
+def qlistexpr(t, env):
+    ct = canon(t)
+    if ct in env:
+        return env[ct]
+    if t[0] == "app":
+        return "(%s ++ [%s])" % (qlistexpr(t[1], env), qexpr(t[2], env["@q"]))
+    if t[0] == "if":
+        return "(if %s then %s else %s)" % (qcond(t[1], env["@q"]), qlistexpr(t[2], env),
+                                            qlistexpr(t[3], env))
+    raise Unsupported("list expression " + show(t)[:300])
 
 
 class Defs:
@@ -128,572 +159,543 @@ class Defs:
 
 
 # ------------------------------------------------------------------------------------------------
+# matching an anchored class against a reference class
+
+
+def site(repo, rel, cls, ref_src, methods, opaque=()):
+    """-> (Match, reference evaluator, actual evaluator)"""
+    ref_ev = Ev(ast.parse(ref_src), "Ref", opaque=opaque)
+    act_ev = Ev(_load(repo, rel), cls, opaque=opaque)
+    m = Match()
+    for meth in methods:
+        _need(meth in act_ev.methods, "%s.%s is missing" % (cls, meth))
+        p = ref_ev.summary(meth)
+        a = act_ev.summary(meth)
+        m.summary(p, a, "%s.%s" % (cls, meth))
+    return m, ref_ev, act_ev
+
+
+def abv(m, ref_ev, name):
+    """the actual bound variable matched with the reference binder called `name`"""
+    pid = ref_ev.bvnames.get(name)
+    _need(pid is not None and pid in m.bv, "binder %s of the reference was not matched" % name)
+    return ("bv", m.bv[pid])
+
+
+ROWS = "[X.iloc[i, :].values for i in range(X.shape[0])]"
+
+# ------------------------------------------------------------------------------------------------
 # padder.py
+
+PAD_REF = '''
+class Ref:
+    def fit(self, X, y=None):
+        X = check_X(X, coerce_to_pandas=True)
+        if self.pad_length is None:
+            self.pad_length_ = max(max(len(s) for s in row) for row in %(rows)s)
+        else:
+            self.pad_length_ = self.pad_length
+        self._is_fitted = True
+        return self
+
+    def transform(self, X, y=None):
+        self.check_is_fitted()
+        X = check_X(X, coerce_to_pandas=True)
+        rows = %(rows)s
+        if _H_reject:
+            raise ValueError("")
+        return pd.DataFrame([pd.Series([self._create_pad(cell) for cell in row]) for row in rows])
+
+    def _create_pad(self, series):
+        out = np.full(_H_alloc, self.fill_value, np.float)
+        out[:_H_hi] = np.asarray(series)
+        return out
+''' % {"rows": ROWS}
 
 
 def _padder(repo, d):
-    mod = _load(repo, "sktime/transformations/panel/padder.py")
-    fit = _body(_find(mod, "PaddingTransformer.fit"))
-    _need(len(fit) == 4, "PaddingTransformer.fit has %d statements, expected 4" % len(fit))
-    _same(fit[0], "X = check_X(X, coerce_to_pandas=True)", "fit stmt 1")
-    _same(fit[1], """if self.pad_length is None:
-    n_instances, _ = X.shape
-    arr = [X.iloc[i, :].values for i in range(n_instances)]
-    self.pad_length_ = _get_max_length(arr)
-else:
-    self.pad_length_ = self.pad_length""", "fit stmt 2 (requested or longest length)")
-    _same(fit[2], "self._is_fitted = True", "fit stmt 3")
-    _same(fit[3], "return self", "fit stmt 4")
-    gm = _body(_find(mod, "_get_max_length"))
-    _need(len(gm) == 2, "_get_max_length has %d statements" % len(gm))
-    _same(gm[0], "def get_length(input):\n    return max(map(lambda series: len(series), input))",
-          "_get_max_length.get_length")
-    _same(gm[1], "return max(map(get_length, X))", "_get_max_length return")
-    cp = _body(_find(mod, "PaddingTransformer._create_pad"))
-    _need(len(cp) == 3, "_create_pad has %d statements, expected 3" % len(cp))
-    v = _assign(cp[0], "out")
-    _need(isinstance(v, ast.Call) and _u(v.func) == "np.full" and len(v.args) == 3 and not v.keywords
-          and _u(v.args[1]) == "self.fill_value", "out = np.full(len, self.fill_value, dtype)", cp[0])
-    d.addz("gen_pad_alloc", "L", "Z", _zexpr(v.args[0], {"self.pad_length_": "L"}))
-    st = cp[1]
-    _need(isinstance(st, ast.Assign) and len(st.targets) == 1
-          and isinstance(st.targets[0], ast.Subscript) and _u(st.targets[0].value) == "out"
-          and isinstance(st.targets[0].slice, ast.Slice) and st.targets[0].slice.lower is None
-          and st.targets[0].slice.step is None and st.targets[0].slice.upper is not None,
-          "out[:hi] = <series>", st)
-    _need(_u(st.value) == "np.asarray(series)", "the whole series is copied", st)
-    d.addz("gen_pad_copy_hi", "len", "Z", _zexpr(st.targets[0].slice.upper, {"len(series)": "len"}))
-    _same(cp[2], "return out", "_create_pad return")
-    tr = _body(_find(mod, "PaddingTransformer.transform"))
-    _need(len(tr) == 8, "PaddingTransformer.transform has %d statements, expected 8" % len(tr))
-    _same(tr[0], "self.check_is_fitted()", "transform stmt 1")
-    _same(tr[1], "X = check_X(X, coerce_to_pandas=True)", "transform stmt 2")
-    _same(tr[2], "n_instances, n_dims = X.shape", "transform stmt 3")
-    _same(tr[3], "arr = [X.iloc[i, :].values for i in range(n_instances)]", "transform stmt 4")
-    _same(tr[4], "max_length = _get_max_length(arr)", "transform stmt 5")
-    d.addz("gen_pad_reject", "mx L", "bool",
-           _zcmp(_raises(tr[5]), {"max_length": "mx", "self.pad_length_": "L"}))
-    _same(tr[6], "pad = [pd.Series([self._create_pad(series) for series in out]) for out in arr]",
-          "transform stmt 7 (every cell of every row, in order)")
-    _same(tr[7], "return pd.DataFrame(pad)", "transform stmt 8")
+    m, rev, aev = site(repo, "sktime/transformations/panel/padder.py", "PaddingTransformer",
+                       PAD_REF, ["fit", "transform"])
+    X = E(aev, "check_X(X, coerce_to_pandas=True)", X=("s", "X"))
+    mx = E(aev, "max(max(len(s) for s in row) for row in %s)" % ROWS, X=X)
+    cell = abv(m, rev, "cell")
+    h = m.holes
+    d.addz("gen_pad_alloc", "L", "Z", zexpr(h["alloc"], zenv(L=attr("pad_length_"))))
+    d.addz("gen_pad_copy_hi", "len", "Z", zexpr(h["hi"], zenv(len=E(aev, "len(c)", c=cell))))
+    d.addz("gen_pad_reject", "mx L", "bool", zcmp(h["reject"], zenv(mx=mx, L=attr("pad_length_"))))
 
 
 # ------------------------------------------------------------------------------------------------
 # truncation.py
 
+TRUNC_REF = '''
+class Ref:
+    def fit(self, X, y=None):
+        X = check_X(X, coerce_to_pandas=True)
+        if self.lower is None:
+            self.lower_ = min(min(len(s) for s in row) for row in %(rows)s)
+        else:
+            self.lower_ = self.lower
+        self._is_fitted = True
+        return self
+
+    def transform(self, X, y=None):
+        self.check_is_fitted()
+        X = check_X(X, coerce_to_pandas=True)
+        rows = %(rows)s
+        if _H_reject:
+            raise ValueError("")
+        if self.upper is None:
+            idxs = np.arange(_H_none_stop)
+        else:
+            idxs = np.arange(_H_start, _H_stop)
+        return pd.DataFrame(
+            [pd.Series([pd.Series(cell).iloc[idxs] for cell in row]) for row in rows])
+''' % {"rows": ROWS}
+
 
 def _truncation(repo, d):
-    mod = _load(repo, "sktime/transformations/panel/truncation.py")
-    fit = _body(_find(mod, "TruncationTransformer.fit"))
-    _need(len(fit) == 4, "TruncationTransformer.fit has %d statements, expected 4" % len(fit))
-    _same(fit[0], "X = check_X(X, coerce_to_pandas=True)", "fit stmt 1")
-    _same(fit[1], """if self.lower is None:
-    n_instances, _ = X.shape
-    arr = [X.iloc[i, :].values for i in range(n_instances)]
-    self.lower_ = self.get_min_length(arr)
-else:
-    self.lower_ = self.lower""", "fit stmt 2 (requested or shortest length)")
-    gm = _body(_find(mod, "TruncationTransformer.get_min_length"))
-    _need(len(gm) == 2, "get_min_length has %d statements" % len(gm))
-    _same(gm[0], "def get_length(input):\n    return min(map(lambda series: len(series), input))",
-          "get_min_length.get_length")
-    _same(gm[1], "return min(map(get_length, X))", "get_min_length return")
-    tr = _body(_find(mod, "TruncationTransformer.transform"))
-    _need(len(tr) == 9, "TruncationTransformer.transform has %d statements, expected 9" % len(tr))
-    _same(tr[0], "self.check_is_fitted()", "transform stmt 1")
-    _same(tr[1], "X = check_X(X, coerce_to_pandas=True)", "transform stmt 2")
-    _same(tr[2], "n_instances, _ = X.shape", "transform stmt 3")
-    _same(tr[3], "arr = [X.iloc[i, :].values for i in range(n_instances)]", "transform stmt 4")
-    _same(tr[4], "min_length = self.get_min_length(arr)", "transform stmt 5")
-    env = {"min_length": "mn", "self.lower_": "lo", "self.upper": "u"}
-    d.addz("gen_trunc_reject", "mn lo", "bool", _zcmp(_raises(tr[5]), env))
-    st = tr[6]
-    _need(isinstance(st, ast.If) and _u(st.test) == "self.upper is None" and len(st.body) == 1
-          and len(st.orelse) == 1, "if self.upper is None: ... else: ...", st)
-    a = _assign(st.body[0], "idxs")
-    _need(isinstance(a, ast.Call) and _u(a.func) == "np.arange" and len(a.args) == 1
-          and not a.keywords, "idxs = np.arange(stop)", st.body[0])
-    d.addz("gen_trunc_none_stop", "lo", "Z", _zexpr(a.args[0], env))
-    b = _assign(st.orelse[0], "idxs")
-    _need(isinstance(b, ast.Call) and _u(b.func) == "np.arange" and len(b.args) == 2
-          and not b.keywords, "idxs = np.arange(start, stop)", st.orelse[0])
-    d.addz("gen_trunc_start", "lo u", "Z", _zexpr(b.args[0], env))
-    d.addz("gen_trunc_stop", "lo u", "Z", _zexpr(b.args[1], env))
-    _same(tr[7], "truncate = [pd.Series([pd.Series(series).iloc[idxs] for series in out]) "
-                 "for out in arr]", "transform stmt 8 (positional selection of every cell)")
-    _same(tr[8], "return pd.DataFrame(truncate)", "transform stmt 9")
+    m, rev, aev = site(repo, "sktime/transformations/panel/truncation.py",
+                       "TruncationTransformer", TRUNC_REF, ["fit", "transform"])
+    X = E(aev, "check_X(X, coerce_to_pandas=True)", X=("s", "X"))
+    mn = E(aev, "min(min(len(s) for s in row) for row in %s)" % ROWS, X=X)
+    env = zenv(mn=mn, lo=attr("lower_"), u=attr("upper"))
+    h = m.holes
+    d.addz("gen_trunc_reject", "mn lo", "bool", zcmp(h["reject"], env))
+    d.addz("gen_trunc_none_stop", "lo", "Z", zexpr(h["none_stop"], env))
+    d.addz("gen_trunc_start", "lo u", "Z", zexpr(h["start"], env))
+    d.addz("gen_trunc_stop", "lo u", "Z", zexpr(h["stop"], env))
 
 
 # ------------------------------------------------------------------------------------------------
 # interpolate.py
 
+INTERP_REF = '''
+class Ref:
+    def _resize_cell(self, cell):
+        f = interpolate.interp1d(list(np.linspace(_H_klo, _H_khi, _H_knum)), np.asarray(cell))
+        return f(np.linspace(_H_qlo, _H_qhi, _H_qnum))
 
-def _linspace(e, env, what):
-    _need(isinstance(e, ast.Call) and _u(e.func) == "np.linspace" and len(e.args) == 3
-          and not e.keywords, what + ": np.linspace(lo, hi, num)", e)
-    return [_zexpr(a, env) for a in e.args]
+    def _resize_col(self, coll):
+        return coll.apply(self._resize_cell)
+
+    def transform(self, X, y=None):
+        self.check_is_fitted()
+        X = check_X(X, coerce_to_pandas=True)
+        return X.apply(self._resize_col)
+'''
 
 
 def _interpolate(repo, d):
-    mod = _load(repo, "sktime/transformations/panel/interpolate.py")
-    rc = _body(_find(mod, "TSInterpolator._resize_cell"))
-    _need(len(rc) == 2, "_resize_cell has %d statements, expected 2" % len(rc))
-    f = _assign(rc[0], "f")
-    _need(isinstance(f, ast.Call) and _u(f.func) == "interpolate.interp1d" and len(f.args) == 2
-          and not f.keywords and _u(f.args[1]) == "np.asarray(cell)"
-          and isinstance(f.args[0], ast.Call) and _u(f.args[0].func) == "list"
-          and len(f.args[0].args) == 1,
-          "f = interpolate.interp1d(list(np.linspace(..)), np.asarray(cell))  [linear by default]",
-          rc[0])
-    env = {"len(cell)": "n", "self.length": "m"}
-    lo, hi, num = _linspace(f.args[0].args[0], env, "knots")
-    d.addz("gen_interp_knot_lo", "n m", "Z", lo)
-    d.addz("gen_interp_knot_hi", "n m", "Z", hi)
-    d.addz("gen_interp_knot_num", "n m", "Z", num)
-    r = rc[1]
-    _need(isinstance(r, ast.Return) and isinstance(r.value, ast.Call) and _u(r.value.func) == "f"
-          and len(r.value.args) == 1 and not r.value.keywords, "return f(np.linspace(..))", r)
-    lo, hi, num = _linspace(r.value.args[0], env, "query points")
-    d.addz("gen_interp_query_lo", "n m", "Z", lo)
-    d.addz("gen_interp_query_hi", "n m", "Z", hi)
-    d.addz("gen_interp_query_num", "n m", "Z", num)
-    col = _body(_find(mod, "TSInterpolator._resize_col"))
-    _need(len(col) == 1, "_resize_col has %d statements" % len(col))
-    _same(col[0], "return coll.apply(self._resize_cell)", "_resize_col")
-    tr = _body(_find(mod, "TSInterpolator.transform"))
-    _need(len(tr) == 3, "TSInterpolator.transform has %d statements" % len(tr))
-    _same(tr[0], "self.check_is_fitted()", "transform stmt 1")
-    _same(tr[1], "X = check_X(X, coerce_to_pandas=True)", "transform stmt 2")
-    _same(tr[2], "return X.apply(self._resize_col)", "transform stmt 3")
+    m, rev, aev = site(repo, "sktime/transformations/panel/interpolate.py", "TSInterpolator",
+                       INTERP_REF, ["transform"])
+    cell = abv(m, rev, "cell")
+    env = zenv(n=E(aev, "len(c)", c=cell), m=attr("length"))
+    for nm in ("knot_lo", "knot_hi", "knot_num", "query_lo", "query_hi", "query_num"):
+        hole = nm[0] + nm.split("_")[1]
+        d.addz("gen_interp_" + nm, "n m", "Z", zexpr(m.holes[hole], env))
 
 
 # ------------------------------------------------------------------------------------------------
 # segment.py
 
+ISEG_REF = '''
+class Ref:
+    def fit(self, X, y=None):
+        X = check_X(X, enforce_univariate=True, coerce_to_numpy=True)
+        self.input_shape_ = X.shape[0], X.shape[1], X.shape[2]
+        self._time_index = np.arange(X.shape[2])
+        if isinstance(self.intervals, np.ndarray):
+            self.intervals_ = list(self.intervals)
+        elif isinstance(self.intervals, (int, np.integer)):
+            if _H_reject:
+                raise ValueError("")
+            self.intervals_ = _H_stored
+        else:
+            raise ValueError("")
+        self._is_fitted = True
+        return self
 
-def _interval_segmenter(mod, d):
-    fit = _body(_find(mod, "IntervalSegmenter.fit"))
-    _need(len(fit) == 7, "IntervalSegmenter.fit has %d statements, expected 7" % len(fit))
-    _same(fit[0], "X = check_X(X, enforce_univariate=True, coerce_to_numpy=True)", "fit stmt 1")
-    _same(fit[1], "n_instances, n_columns, n_timepoints = X.shape", "fit stmt 2")
-    _same(fit[2], "self.input_shape_ = (n_instances, n_columns, n_timepoints)", "fit stmt 3")
-    _same(fit[3], "self._time_index = np.arange(n_timepoints)", "fit stmt 4")
-    st = fit[4]
-    _need(isinstance(st, ast.If) and _u(st.test) == "isinstance(self.intervals, np.ndarray)"
-          and len(st.body) == 1 and _u(st.body[0]) == "self.intervals_ = list(self.intervals)"
-          and len(st.orelse) == 1 and isinstance(st.orelse[0], ast.If),
-          "fit stmt 5: ndarray branch keeps the rows [start, end)", st)
-    br = st.orelse[0]
-    _need(_u(br.test) == "isinstance(self.intervals, (int, np.integer))" and len(br.body) == 2
-          and len(br.orelse) == 1 and isinstance(br.orelse[0], ast.Raise), "fit stmt 5: int branch", br)
-    d.addz("gen_iseg_reject", "k n", "bool",
-           _zcmp(_raises(br.body[0]), {"self.intervals": "k", "n_timepoints": "n"}))
-    v = _assign(br.body[1], "self.intervals_")
-    split = "np.array_split(self._time_index, self.intervals)"
-    cenv = {"chunk[0]": "first", "chunk[-1]": "last"}
-    if _u(v) == split:
-        # the stored interval IS the chunk of consecutive indices
-        stored = {"interval[0]": "first", "interval[-1]": "last"}
+    def transform(self, X, y=None):
+        self.check_is_fitted()
+        X = check_X(X, enforce_univariate=True, coerce_to_numpy=True)
+        X = X.squeeze(1)
+        column_names = _get_column_names(X)[0]
+        Xt = pd.DataFrame(_concat_nested_arrays(
+            [X[:, _H_lo:_H_hi] for interval in self.intervals_]))
+        Xt.columns = [f"{column_names}_{_H_nlo}_{_H_nhi}" for ival in self.intervals_]
+        return Xt
+'''
+
+
+def _interval_segmenter(repo, d):
+    m, rev, aev = site(repo, "sktime/transformations/panel/segment.py", "IntervalSegmenter",
+                       ISEG_REF, ["fit", "transform"])
+    h = m.holes
+    X = E(aev, "check_X(X, enforce_univariate=True, coerce_to_numpy=True)", X=("s", "X"))
+    n = E(aev, "X.shape[2]", X=X)
+    d.addz("gen_iseg_reject", "k n", "bool", zcmp(h["reject"], zenv(k=attr("intervals"), n=n)))
+    # the stored intervals as a function of a chunk of consecutive indices
+    split = E(aev, "np.array_split(np.arange(n), self.intervals)", n=n)
+    st = h["stored"]
+    if canon(st) == canon(split):
+        stored = None                                     # the stored interval IS the chunk
     else:
-        _need(isinstance(v, ast.ListComp) and len(v.generators) == 1
-              and _u(v.generators[0].target) == "chunk" and _u(v.generators[0].iter) == split
-              and not v.generators[0].ifs and isinstance(v.elt, ast.Call)
-              and _u(v.elt.func) == "np.array" and len(v.elt.args) == 1 and not v.elt.keywords
-              and isinstance(v.elt.args[0], ast.List) and len(v.elt.args[0].elts) == 2,
-              "self.intervals_ = [np.array([start, end]) for chunk in np.array_split(..)]", br.body[1])
-        e0, e1 = v.elt.args[0].elts
-        stored = {"interval[0]": _zexpr(e0, cenv), "interval[-1]": _zexpr(e1, cenv)}
-    _same(fit[5], "self._is_fitted = True", "fit stmt 6")
-    _same(fit[6], "return self", "fit stmt 7")
-    tr = _body(_find(mod, "IntervalSegmenter.transform"))
-    _need(len(tr) == 10, "IntervalSegmenter.transform has %d statements, expected 10" % len(tr))
-    _same(tr[0], "self.check_is_fitted()", "transform stmt 1")
-    _same(tr[1], "X = check_X(X, enforce_univariate=True, coerce_to_numpy=True)", "transform stmt 2")
-    _same(tr[2], "X = X.squeeze(1)", "transform stmt 3")
-    _same(tr[3], "intervals = []", "transform stmt 4")
-    _same(tr[4], "column_names = _get_column_names(X)[0]", "transform stmt 5")
-    _same(tr[5], "new_column_names = []", "transform stmt 6")
-    lp = tr[6]
-    _need(isinstance(lp, ast.For) and _u(lp.target) == "interval" and _u(lp.iter) == "self.intervals_"
-          and not lp.orelse and len(lp.body) == 4, "for interval in self.intervals_ (4 statements)", lp)
-    se = _assign(lp.body[0], "(start, end)")
-    _need(isinstance(se, ast.Tuple) and len(se.elts) == 2, "start, end = a, b", lp.body[0])
-    sl = _assign(lp.body[1], "interval")
-    _need(isinstance(sl, ast.Subscript) and _u(sl.value) == "X" and isinstance(sl.slice, ast.Tuple)
-          and len(sl.slice.elts) == 2 and _u(sl.slice.elts[0]) == ":"
-          and isinstance(sl.slice.elts[1], ast.Slice) and sl.slice.elts[1].step is None
-          and _u(sl.slice.elts[1].lower) == "start" and _u(sl.slice.elts[1].upper) == "end",
-          "interval = X[:, start:end]", lp.body[1])
-    d.addz("gen_iseg_start", "first last", "Z", _zexpr(se.elts[0], stored))
-    d.addz("gen_iseg_end", "first last", "Z", _zexpr(se.elts[1], stored))
-    _same(lp.body[2], "intervals.append(interval)", "loop stmt 3")
-    _same(lp.body[3], "new_column_names.append(f'{column_names}_{start}_{end}')", "loop stmt 4")
-    _same(tr[7], "Xt = pd.DataFrame(_concat_nested_arrays(intervals))", "transform stmt 8")
-    _same(tr[8], "Xt.columns = new_column_names", "transform stmt 9")
-    _same(tr[9], "return Xt", "transform stmt 10")
+        _need(st[0] == "comp" and canon(st[3]) == canon(split) and not st[4]
+              and st[2][0] == "call" and st[2][1] == ("a", ("s", "np"), "array")
+              and len(st[2][2]) == 1 and not st[2][3] and st[2][2][0][0] == "l"
+              and len(st[2][2][0][1]) == 2,
+              "self.intervals_ = [np.array([start, end]) for chunk in np.array_split(..)]", st)
+        chunk = ("bv", st[1])
+        cenv = zenv(first=("i", chunk, C(0)), last=("i", chunk, C(-1)))
+        stored = [zexpr(e, cenv) for e in st[2][2][0][1]]
+    # the slice bounds of transform as a function of a stored interval
+    iv, ivn = abv(m, rev, "interval"), abv(m, rev, "ival")
+    for a, b in (("lo", "nlo"), ("hi", "nhi")):
+        _need(canon(subst(h[b], {ivn: iv})) == canon(h[a]),
+              "the column names use the slice bounds", h[b])
+    if stored is None:
+        senv = zenv(first=("i", iv, C(0)), last=("i", iv, C(-1)))
+    else:
+        senv = {canon(("i", iv, C(0))): stored[0], canon(("i", iv, C(-1))): stored[1],
+                canon(("i", iv, C(1))): stored[1]}
+    d.addz("gen_iseg_start", "first last", "Z", zexpr(h["lo"], senv))
+    d.addz("gen_iseg_end", "first last", "Z", zexpr(h["hi"], senv))
 
 
-def _sliding(mod, d):
-    tr = _body(_find(mod, "SlidingWindowSegmenter.transform"))
-    _need(len(tr) == 14, "SlidingWindowSegmenter.transform has %d statements, expected 14" % len(tr))
-    _same(tr[0], "self.check_is_fitted()", "stmt 1")
-    _same(tr[1], "X = check_X(X, enforce_univariate=True, coerce_to_numpy=True)", "stmt 2")
-    _same(tr[2], "X = X.squeeze(1)", "stmt 3")
-    _same(tr[3], "n_timepoints = X.shape[1]", "stmt 4")
-    _same(tr[4], "n_instances = X.shape[0]", "stmt 5")
-    _same(tr[5], "self._check_parameters(n_timepoints)", "stmt 6")
-    env = {"self.window_length": "w", "n_timepoints": "n", "pad_amnt": "pad"}
-    d.addz("gen_slide_pad", "w", "Z", _zexpr(_assign(tr[6], "pad_amnt"), env))
-    z = _assign(tr[7], "padded_data")
-    _need(isinstance(z, ast.Call) and _u(z.func) == "np.zeros" and len(z.args) == 1
-          and isinstance(z.args[0], ast.Tuple) and len(z.args[0].elts) == 2
-          and _u(z.args[0].elts[0]) == "n_instances", "padded_data = np.zeros((n_instances, len))", tr[7])
-    d.addz("gen_slide_padded_len", "n pad", "Z", _zexpr(z.args[0].elts[1], env))
-    _same(tr[8], "for i in range(n_instances):\n    padded_data[i] = np.pad(X[i], pad_amnt, mode='edge')",
-          "stmt 9 (edge padding of every instance)")
-    _same(tr[9], "subsequences = np.zeros((n_instances, n_timepoints, self.window_length))", "stmt 10")
-    _same(tr[10], "for i in range(n_instances):\n    subsequences[i] = "
-                  "self._extract_subsequences(padded_data[i], n_timepoints)", "stmt 11")
-    _same(tr[11], "df = pd.DataFrame()", "stmt 12")
-    _same(tr[12], """for i in range(len(subsequences)):
-    inst = subsequences[i]
-    data = []
-    for j in range(len(inst)):
-        data.append(pd.Series(inst[j]))
-    df[i] = data""", "stmt 13 (one cell per window, in order)")
-    _same(tr[13], "return df.transpose()", "stmt 14")
-    ex = _body(_find(mod, "SlidingWindowSegmenter._extract_subsequences"))
-    _need(len(ex) == 3, "_extract_subsequences has %d statements, expected 3" % len(ex))
-    sh = _assign(ex[0], "shape")
-    _need(isinstance(sh, ast.Tuple) and len(sh.elts) == 2, "shape = (rows, cols)", ex[0])
-    d.addz("gen_slide_rows", "n w", "Z", _zexpr(sh.elts[0], env))
-    d.addz("gen_slide_cols", "n w", "Z", _zexpr(sh.elts[1], env))
-    stv = _assign(ex[1], "strides")
-    _need(isinstance(stv, ast.Tuple) and len(stv.elts) == 2, "strides = (s0, s1)", ex[1])
-    unit = {"instance.itemsize": "(1)"}          # strides in units of one item
-    d.addz("gen_slide_stride0", "n w", "Z", _zexpr(stv.elts[0], unit))
-    d.addz("gen_slide_stride1", "n w", "Z", _zexpr(stv.elts[1], unit))
-    _same(ex[2], "return np.lib.stride_tricks.as_strided(instance, shape=shape, strides=strides)",
-          "_extract_subsequences return")
-    cp = _body(_find(mod, "SlidingWindowSegmenter._check_parameters"))
-    _need(len(cp) == 1 and isinstance(cp[0], ast.If)
-          and _u(cp[0].test) == "isinstance(self.window_length, int)" and len(cp[0].body) == 1
-          and len(cp[0].orelse) == 1 and isinstance(cp[0].orelse[0], ast.Raise),
-          "_check_parameters shape", cp[0] if cp else None)
-    d.addz("gen_slide_reject", "w", "bool", _zcmp(_raises(cp[0].body[0]), env))
+SLIDE_REF = '''
+class Ref:
+    def transform(self, X, y=None):
+        self.check_is_fitted()
+        X = check_X(X, enforce_univariate=True, coerce_to_numpy=True)
+        X = X.squeeze(1)
+        n_timepoints = X.shape[1]
+        n_instances = X.shape[0]
+        self._check_parameters(n_timepoints)
+        padded_data = np.zeros((n_instances, _H_padded_len))
+        for i in range(n_instances):
+            padded_data[i] = np.pad(X[i], _H_pad, mode="edge")
+        subsequences = np.zeros((n_instances, n_timepoints, self.window_length))
+        for i in range(n_instances):
+            subsequences[i] = np.lib.stride_tricks.as_strided(
+                _AS("inst", padded_data[i]), shape=(_H_rows, _H_cols), strides=(_H_s0, _H_s1))
+        df = pd.DataFrame()
+        for i in range(len(subsequences)):
+            df[i] = [pd.Series(subsequences[i][j]) for j in range(len(subsequences[i]))]
+        return df.transpose()
+
+    def _check_parameters(self, n_timepoints):
+        if isinstance(self.window_length, int):
+            if _H_wreject:
+                raise ValueError("")
+        else:
+            raise TypeError("")
+'''
 
 
-def _segment(repo, d):
-    mod = _load(repo, "sktime/transformations/panel/segment.py")
-    _interval_segmenter(mod, d)
-    _sliding(mod, d)
+def _sliding(repo, d):
+    m, rev, aev = site(repo, "sktime/transformations/panel/segment.py",
+                       "SlidingWindowSegmenter", SLIDE_REF, ["transform"])
+    h = m.holes
+    X = E(aev, "check_X(X, enforce_univariate=True, coerce_to_numpy=True).squeeze(1)",
+          X=("s", "X"))
+    n = E(aev, "X.shape[1]", X=X)
+    env = zenv(w=attr("window_length"), n=n)
+    d.addz("gen_slide_pad", "w", "Z", zexpr(h["pad"], env))
+    env2 = dict(env)
+    env2[canon(h["pad"])] = "pad"
+    d.addz("gen_slide_padded_len", "n pad", "Z", zexpr(h["padded_len"], env2))
+    d.addz("gen_slide_rows", "n w", "Z", zexpr(h["rows"], env))
+    d.addz("gen_slide_cols", "n w", "Z", zexpr(h["cols"], env))
+    unit = {canon(("a", h["inst"], "itemsize")): "(1)"}       # strides in units of one item
+    d.addz("gen_slide_stride0", "n w", "Z", zexpr(h["s0"], unit))
+    d.addz("gen_slide_stride1", "n w", "Z", zexpr(h["s1"], unit))
+    d.addz("gen_slide_reject", "w", "bool", zcmp(h["wreject"], env))
 
 
 # ------------------------------------------------------------------------------------------------
-# _paa.py : symbolic execution of the running-sum loop body
+# _paa.py
 
+PAA_REF = '''
+class Ref:
+    def transform(self, X, y=None):
+        self.check_is_fitted()
+        X = check_X(X, enforce_univariate=False, coerce_to_pandas=True)
+        num_atts = len(X.iloc[0, 0])
+        self._check_parameters(num_atts)
+        result = pd.concat([self._along(pd.DataFrame(X[col])) for col in X.columns],
+                           axis=1, sort=False)
+        result.columns = X.columns
+        return result
 
-class _Sym:
-    """straight-line code + if/else over the state variables -> a chain of Gallina lets"""
-    TYPES = {"frames": "list", "current_frame": "nat", "current_frame_size": "Q", "frame_sum": "Q",
-             "remaining": "Q"}
+    def _along(self, X):
+        dims = pd.DataFrame()
+        dims[0] = [pd.Series(_H_frames) for inst in range(
+            _AS("x2", from_nested_to_2d_array(X, return_numpy=True)).shape[0])]
+        return dims
 
-    def __init__(self, env):
-        self.env = dict(env)        # python name -> gallina name
-        self.lets = []
-        self.count = {}
-
-    def fresh(self, v):
-        self.count[v] = self.count.get(v, 0) + 1
-        return "%s_%d" % (v, self.count[v])
-
-    def expr(self, e, ty, env):
-        if isinstance(e, ast.Constant) and isinstance(e.value, int) and not isinstance(e.value, bool):
-            return "%d%%nat" % e.value if ty == "nat" else "(%d)" % e.value
-        u = _u(e)
-        if isinstance(e, (ast.Name, ast.Subscript, ast.Attribute)) and u in env:
-            return env[u]
-        if isinstance(e, ast.BinOp) and type(e.op) in (ast.Add, ast.Sub, ast.Mult, ast.Div):
-            _need(ty == "Q" or type(e.op) in (ast.Add,), "arithmetic on a counter other than +", e)
-            op = {ast.Add: "+", ast.Sub: "-", ast.Mult: "*", ast.Div: "/"}[type(e.op)]
-            s = "(%s %s %s)" % (self.expr(e.left, ty, env), op, self.expr(e.right, ty, env))
-            return s + "%nat" if ty == "nat" else s
-        raise Unsupported("expression %s" % u)
-
-    def test(self, e, env):
-        _need(isinstance(e, ast.Compare) and len(e.ops) == 1, "comparison", e)
-        a, b = self.expr(e.left, "Q", env), self.expr(e.comparators[0], "Q", env)
-        if isinstance(e.ops[0], ast.Gt):
-            return "(qltb %s %s)" % (b, a)
-        if isinstance(e.ops[0], ast.Lt):
-            return "(qltb %s %s)" % (a, b)
-        if isinstance(e.ops[0], ast.Eq):
-            return "(Qeq_bool %s %s)" % (a, b)
-        raise Unsupported("comparison %s" % _u(e))
-
-    def bind(self, v, rhs, env):
-        name = self.fresh(v)
-        self.lets.append((name, rhs))
-        env[v] = name
-
-    def run(self, stmts, env):
-        for st in stmts:
-            if isinstance(st, ast.Assign) and len(st.targets) == 1 and isinstance(st.targets[0], ast.Name):
-                v = st.targets[0].id
-                _need(v in self.TYPES, "assignment to an unknown variable", st)
-                self.bind(v, self.expr(st.value, self.TYPES[v], env), env)
-            elif isinstance(st, ast.AugAssign) and isinstance(st.op, ast.Add) \
-                    and isinstance(st.target, ast.Name) and st.target.id in self.TYPES \
-                    and st.target.id in env:
-                v = st.target.id
-                ty = self.TYPES[v]
-                s = "(%s + %s)" % (env[v], self.expr(st.value, ty, env))
-                self.bind(v, s + "%nat" if ty == "nat" else s, env)
-            elif isinstance(st, ast.Expr) and isinstance(st.value, ast.Call) \
-                    and _u(st.value.func) == "frames.append" and len(st.value.args) == 1 \
-                    and not st.value.keywords:
-                self.bind("frames", "(%s ++ [%s])" % (env["frames"],
-                                                      self.expr(st.value.args[0], "Q", env)), env)
-            elif isinstance(st, ast.If):
-                c = self.fresh("c")
-                self.lets.append((c, self.test(st.test, env)))
-                e1, e2 = dict(env), dict(env)
-                self.run(st.body, e1)
-                self.run(st.orelse, e2)
-                for v in sorted(set(e1) | set(e2)):
-                    _need(v in e1 and v in e2, "variable %s defined in one branch only" % v, st)
-                    if e1[v] != e2[v]:
-                        self.bind(v, "(if %s then %s else %s)" % (c, e1[v], e2[v]), env)
-            else:
-                raise Unsupported("statement in the PAA loop body: %s" % _u(st))
+    def _check_parameters(self, num_atts):
+        if isinstance(self.num_intervals, int):
+            if _H_low:
+                raise ValueError("")
+            if _H_high:
+                raise ValueError("")
+        else:
+            raise TypeError("")
+'''
 
 
 def _paa(repo, d):
-    mod = _load(repo, "sktime/transformations/panel/dictionary_based/_paa.py")
-    tr = _body(_find(mod, "PAA.transform"))
-    _need(len(tr) == 10, "PAA.transform has %d statements, expected 10" % len(tr))
-    _same(tr[0], "self.check_is_fitted()", "transform stmt 1")
-    _same(tr[1], "X = check_X(X, enforce_univariate=False, coerce_to_pandas=True)", "transform stmt 2")
-    _same(tr[2], "num_atts = len(X.iloc[0, 0])", "transform stmt 3 (length of the first cell)")
-    _same(tr[3], "col_names = X.columns", "transform stmt 4")
-    _same(tr[4], "self._check_parameters(num_atts)", "transform stmt 5")
-    _same(tr[5], "dataFrames = []", "transform stmt 6")
-    _same(tr[6], "for x in col_names:\n    dataFrames.append(self._perform_paa_along_dim(pd.DataFrame(X[x])))",
-          "transform stmt 7 (every column on its own)")
-    _same(tr[7], "result = pd.concat(dataFrames, axis=1, sort=False)", "transform stmt 8")
-    _same(tr[8], "result.columns = col_names", "transform stmt 9")
-    _same(tr[9], "return result", "transform stmt 10")
-    cp = _body(_find(mod, "PAA._check_parameters"))
-    _need(len(cp) == 1 and isinstance(cp[0], ast.If)
-          and _u(cp[0].test) == "isinstance(self.num_intervals, int)" and len(cp[0].body) == 2
-          and len(cp[0].orelse) == 1 and isinstance(cp[0].orelse[0], ast.Raise),
-          "PAA._check_parameters shape", cp[0] if cp else None)
-    env = {"self.num_intervals": "m", "num_atts": "na"}
-    d.addz("gen_paa_reject_low", "m na", "bool", _zcmp(_raises(cp[0].body[0]), env))
-    d.addz("gen_paa_reject_high", "m na", "bool", _zcmp(_raises(cp[0].body[1]), env))
+    m, rev, aev = site(repo, "sktime/transformations/panel/dictionary_based/_paa.py", "PAA",
+                       PAA_REF, ["transform"])
+    h = m.holes
+    X = E(aev, "check_X(X, enforce_univariate=False, coerce_to_pandas=True)", X=("s", "X"))
+    env = zenv(m=attr("num_intervals"), na=E(aev, "len(X.iloc[0, 0])", X=X))
+    d.addz("gen_paa_reject_low", "m na", "bool", zcmp(h["low"], env))
+    d.addz("gen_paa_reject_high", "m na", "bool", zcmp(h["high"], env))
 
-    fn = _body(_find(mod, "PAA._perform_paa_along_dim"))
-    _need(len(fn) == 8, "_perform_paa_along_dim has %d statements, expected 8" % len(fn))
-    _same(fn[0], "X = from_nested_to_2d_array(X, return_numpy=True)", "stmt 1")
-    _same(fn[1], "num_atts = X.shape[1]", "stmt 2")
-    _same(fn[2], "num_insts = X.shape[0]", "stmt 3")
-    _same(fn[3], "dims = pd.DataFrame()", "stmt 4")
-    _same(fn[4], "data = []", "stmt 5")
-    lp = fn[5]
-    _need(isinstance(lp, ast.For) and _u(lp.target) == "i" and _u(lp.iter) == "range(num_insts)"
-          and not lp.orelse and len(lp.body) == 9, "for i in range(num_insts) (9 statements)", lp)
-    _same(fn[6], "dims[0] = data", "stmt 7")
-    _same(fn[7], "return dims", "stmt 8")
-    b = lp.body
-    _same(b[0], "series = X[i, :]", "instance loop stmt 1")
-    _same(b[1], "frames = []", "instance loop stmt 2 (initial state)")
-    _same(b[2], "current_frame = 0", "instance loop stmt 3 (initial state)")
-    _same(b[3], "current_frame_size = 0", "instance loop stmt 4 (initial state)")
-    fl = _assign(b[4], "frame_length")
-    _need(isinstance(fl, ast.BinOp) and isinstance(fl.op, ast.Div) and _u(fl.left) == "num_atts"
-          and _u(fl.right) == "self.num_intervals", "frame_length = num_atts / self.num_intervals", b[4])
-    d.q.append("Definition gen_paa_len (na m : Q) : Q := (na / m).\n")
-    _same(b[5], "frame_sum = 0", "instance loop stmt 6 (initial state)")
-    inner = b[6]
-    _need(isinstance(inner, ast.For) and _u(inner.target) == "n" and _u(inner.iter) == "range(num_atts)"
-          and not inner.orelse, "for n in range(num_atts)", inner)
-    state = {"frames": "frames_0", "current_frame": "current_frame_0",
-             "current_frame_size": "current_frame_size_0", "frame_sum": "frame_sum_0",
-             "frame_length": "L", "series[n]": "x"}
-    sym = _Sym(state)
-    env = dict(state)
-    sym.run(inner.body, env)
-    for v in env:
-        _need(v in state or v == "remaining", "unexpected variable %s in the loop body" % v)
-    lets = "".join("  let %s := %s in\n" % (n, e) for n, e in sym.lets)
-    d.q.append(
-        "Definition gen_paa_step (L : Q) (st : paa_st) (x : Q) : paa_st :=\n"
-        "  let frames_0 := fr st in\n  let current_frame_0 := cur st in\n"
-        "  let current_frame_size_0 := sz st in\n  let frame_sum_0 := sm st in\n" + lets +
-        "  {| fr := %s; cur := %s; sz := %s; sm := %s |}.\n" % (
-            env["frames"], env["current_frame"], env["current_frame_size"], env["frame_sum"]))
-    last = b[7]
-    _need(isinstance(last, ast.If) and not last.orelse and len(last.body) == 1
-          and isinstance(last.test, ast.Compare) and len(last.test.ops) == 1
-          and isinstance(last.test.ops[0], ast.Eq), "if current_frame == ...: frames.append(...)", last)
+    x2, inst = h["x2"], abv(m, rev, "inst")
+    series = E(aev, "x2[i, :]", x2=x2, i=inst)
+    na = E(aev, "x2.shape[1]", x2=x2)
+    fr = h["frames"]
+    # result = frames + [tail] if counter == m - 1 else frames : identifies the roles
+    _need(fr[0] == "if" and fr[1][0] == "cmp" and fr[1][1] == "Eq" and fr[2][0] == "app"
+          and fr[2][1] == fr[3] and fr[3][0] == "fo",
+          "per-series result: frames (+ the lost last frame)", fr)
+    fold, kf = fr[3][1], fr[3][2]
+    _need(fold[0] == "fold" and len(fold[3]) == 4, "a loop over four state variables", fold)
+    fid, bid = fold[5], fold[1]
+    cnt = [x for x in (fr[1][2], fr[1][3]) if x[0] == "fo" and x[1] == fold]
+    _need(len(cnt) == 1, "the lost-frame test compares one loop counter", fr[1])
+    kc = cnt[0][2]
+    tail = fr[2][2]
+    nums = [x for x in walk(tail) if is_term(x) and x[0] == "fo" and x[1] == fold]
+    _need(len(nums) == 1, "the tail uses one accumulated sum", tail)
+    ks = nums[0][2]
+    _need(len({kf, kc, ks}) == 3, "three distinct roles", fr)
+    kz = ({0, 1, 2, 3} - {kf, kc, ks}).pop()
+    init = fold[3]
+    _need(init[kf] == ("l", ()) and init[kc] == C(0) and init[ks] == C(0) and init[kz] == C(0),
+          "initial state: no frames, zero counter / size / sum", init)
+    _need(canon(fold[2]) == canon(E(aev, "range(n)", n=na)), "the loop runs over every time point",
+          fold[2])
+    # frame length: the one sub-term of the tail that is not loop state
+    fl = E(aev, "n / self.num_intervals", n=na)
+    _need(has(tail, lambda x: is_term(x) and canon(x) == canon(fl)),
+          "frame_length = num_atts / self.num_intervals", tail)
+    d.q.append("Definition gen_paa_len (na m : Q) : Q := %s.\n"
+               % qexpr(fl, zenv(na=na, m=attr("num_intervals"))))
     d.addz("gen_paa_last", "cur m", "bool",
-           _zcmp(last.test, {"current_frame": "cur", "self.num_intervals": "m"}))
-    ap = last.body[0]
-    _need(isinstance(ap, ast.Expr) and isinstance(ap.value, ast.Call)
-          and _u(ap.value.func) == "frames.append" and len(ap.value.args) == 1,
-          "frames.append(...)", ap)
-    tail = _Sym({}).expr(ap.value.args[0], "Q", {"frame_sum": "s", "frame_length": "L"})
-    d.q.append("Definition gen_paa_tail (s L : Q) : Q := %s.\n" % tail)
-    _same(b[8], "data.append(pd.Series(frames))", "instance loop stmt 9")
+           zcmp(fr[1], {canon(cnt[0]): "cur", canon(attr("num_intervals")): "m"}))
+    d.q.append("Definition gen_paa_tail (s L : Q) : Q := %s.\n"
+               % qexpr(tail, {canon(nums[0]): "s", canon(fl): "L"}))
+    qenv = {canon(("st", fid, kz)): "(sz st)", canon(("st", fid, ks)): "(sm st)",
+            canon(fl): "L", canon(("i", series, ("bv", bid))): "x"}
+    lenv = {canon(("st", fid, kf)): "(fr st)", "@q": qenv}
+    nenv = {canon(("st", fid, kc)): "(cur st)", "@q": qenv}
+    outs = fold[4]
+    d.q.append("Definition gen_paa_step (L : Q) (st : paa_st) (x : Q) : paa_st :=\n"
+               "  {| fr := %s;\n     cur := %s;\n     sz := %s;\n     sm := %s |}.\n"
+               % (qlistexpr(outs[kf], lenv), natexpr(outs[kc], nenv), qexpr(outs[kz], qenv),
+                  qexpr(outs[ks], qenv)))
 
 
 # ------------------------------------------------------------------------------------------------
 # summarize/_extract.py : RandomIntervalFeatureExtractor.transform
+# (nested loops with a running column counter and a try / except: handled on the AST, with the
+#  evaluator used for every expression, so that names and temporaries do not matter)
 
 
 def _rife(repo, d):
     mod = _load(repo, "sktime/transformations/panel/summarize/_extract.py")
-    tr = _body(_find(mod, "RandomIntervalFeatureExtractor.transform"))
-    _need(len(tr) == 15, "RandomIntervalFeatureExtractor.transform has %d statements, expected 15"
-          % len(tr))
-    _same(tr[0], "self.check_is_fitted()", "stmt 1")
-    _same(tr[1], "features = _check_features(self.features)", "stmt 2")
-    _same(tr[2], "X = check_X(X, enforce_univariate=True, coerce_to_numpy=True)", "stmt 3")
-    _raises(tr[3])
-    _same(tr[4], "n_instances, n_columns, _ = X.shape", "stmt 5")
-    _same(tr[5], "n_features = len(features)", "stmt 6")
-    _same(tr[6], "intervals = self.intervals_", "stmt 7")
-    _same(tr[7], "n_intervals = len(intervals)", "stmt 8")
-    z = _assign(tr[8], "Xt")
-    _need(isinstance(z, ast.Call) and _u(z.func) == "np.zeros" and len(z.args) == 1
-          and isinstance(z.args[0], ast.Tuple) and len(z.args[0].elts) == 2
-          and _u(z.args[0].elts[0]) == "n_instances", "Xt = np.zeros((n_instances, width))", tr[8])
-    d.addz("gen_rife_width", "nf ni", "Z",
-           _zexpr(z.args[0].elts[1], {"n_features": "nf", "n_intervals": "ni"}))
-    _same(tr[9], "columns = []", "stmt 10")
-    _same(tr[10], "i = 0", "stmt 11 (column counter starts at 0)")
-    outer = tr[11]
-    _need(isinstance(outer, ast.For) and not outer.orelse and len(outer.body) == 1
-          and isinstance(outer.body[0], ast.For) and not outer.body[0].orelse,
-          "two nested loops", outer)
+    ev = Ev(mod, "RandomIntervalFeatureExtractor", opaque=("_check_features",))
+    fn = ev.methods.get("transform")
+    _need(fn is not None, "RandomIntervalFeatureExtractor.transform is missing")
+    body = [s for s in fn.body if not (isinstance(s, ast.Expr) and isinstance(s.value, ast.Constant))]
+    loops = [k for k, s in enumerate(body) if isinstance(s, ast.For)]
+    _need(len(loops) == 1, "one top-level loop nest")
+    env = {"@eff": ("l", ()), "self": SELF, "X": ("s", "X"), "y": ("s", "y")}
+    ev.raises, ev.path = [], []
+    tree = ev.block(body[:loops[0]], env)
+    _need(tree[0] == "node" or tree[0] == "fall", "prefix of the loop nest")
+    # the prefix may contain the guard `if X.shape[1] != ...: raise`; take the falling leaf
+    while tree[0] == "node":
+        tree = tree[3] if tree[2][0] == "raise" else tree[2]
+    _need(tree[0] == "fall", "prefix of the loop nest falls through")
+    env = tree[1]
+    _need(len(ev.raises) == 1 and ev.raises[0][1] == "ValueError",
+          "one shape guard before the loops")
+    X = E(ev, "check_X(X, enforce_univariate=True, coerce_to_numpy=True)", X=("s", "X"))
+    feats = E(ev, "_check_features(self.features)")
+    ivs = attr("intervals_")
+    outer = body[loops[0]]
+    _need(len(outer.body) == 1 and isinstance(outer.body[0], ast.For) and not outer.orelse
+          and not outer.body[0].orelse, "two nested loops")
     inner = outer.body[0]
-    loops = {"func in features": "F", "(start, end) in intervals": "V"}
-    ko = "%s in %s" % (_u(outer.target), _u(outer.iter))
-    ki = "%s in %s" % (_u(inner.target), _u(inner.iter))
-    _need(ko in loops and ki in loops and loops[ko] != loops[ki],
-          "loops over `func in features` and `start, end in intervals`", outer)
-    ib = inner.body
-    _need(len(ib) == 4, "inner loop has %d statements, expected 4" % len(ib))
-    sl = _assign(ib[0], "interval")
-    _need(isinstance(sl, ast.Subscript) and _u(sl.value) == "X" and isinstance(sl.slice, ast.Tuple)
-          and len(sl.slice.elts) == 3 and _u(sl.slice.elts[0]) == ":" and _u(sl.slice.elts[1]) == ":"
-          and isinstance(sl.slice.elts[2], ast.Slice) and sl.slice.elts[2].step is None
-          and sl.slice.elts[2].lower is not None and sl.slice.elts[2].upper is not None,
-          "interval = X[:, :, lo:hi]", ib[0])
-    env = {"start": "a", "end": "b"}
-    d.addz("gen_rife_lo", "a b", "Z", _zexpr(sl.slice.elts[2].lower, env))
-    d.addz("gen_rife_hi", "a b", "Z", _zexpr(sl.slice.elts[2].upper, env))
-    t = ib[1]
-    _need(isinstance(t, ast.Try) and len(t.body) == 1
-          and _u(t.body[0]) == "Xt[:, i] = func(interval, axis=-1).squeeze()",
-          "Xt[:, i] = func(interval, axis=-1).squeeze()", t)
-    _need("Xt[:, i] = np.apply_along_axis(func, axis=2, arr=interval).squeeze()" in _u(t),
-          "row-wise fallback writes the same column", t)
-    _same(ib[2], "i += 1", "the column counter advances once per (feature, interval)")
-    _same(ib[3], "columns.append(f'{start}_{end}_{func.__name__}')", "inner stmt 4")
+    kinds = {}
+    lenv = dict(env)
+    for lp in (outer, inner):
+        it = ev.expr(lp.iter, env)
+        if canon(it) == canon(feats):
+            _need(isinstance(lp.target, ast.Name), "for <func> in features")
+            kinds[lp] = "F"
+            lenv[lp.target.id] = ("s", "@func")
+        elif canon(it) == canon(ivs):
+            _need(isinstance(lp.target, ast.Tuple) and len(lp.target.elts) == 2
+                  and all(isinstance(e, ast.Name) for e in lp.target.elts),
+                  "for start, end in intervals")
+            kinds[lp] = "V"
+            lenv[lp.target.elts[0].id] = ("s", "@a")
+            lenv[lp.target.elts[1].id] = ("s", "@b")
+        else:
+            raise Unsupported("loop over " + show(it))
+    _need(sorted(kinds.values()) == ["F", "V"], "loops over the features and over the intervals")
+    # the output array and its running column counter
+    xt = [k for k, v in env.items() if is_term(v) and v[0] == "call"
+          and v[1] == ("a", ("s", "np"), "zeros")]
+    _need(len(xt) == 1, "one np.zeros output array")
+    alloc = env[xt[0]]
+    _need(len(alloc[2]) == 1 and alloc[2][0][0] == "t" and len(alloc[2][0][1]) == 2
+          and canon(alloc[2][0][1][0]) == canon(E(ev, "X.shape[0]", X=X)),
+          "np.zeros((n_instances, width))", alloc)
+    d.addz("gen_rife_width", "nf ni", "Z",
+           zexpr(alloc[2][0][1][1], zenv(nf=E(ev, "len(f)", f=feats), ni=E(ev, "len(v)", v=ivs))))
+    # inner body: temporaries, one try writing column <counter>, counter += 1, a column name
+    counter, lo_hi, wrote, named = None, None, 0, 0
+    for st in inner.body:
+        if isinstance(st, ast.Assign) and all(
+                isinstance(n, (ast.Name, ast.Tuple, ast.Store)) for t in st.targets
+                for n in ast.walk(t)):
+            v = ev.expr(st.value, lenv)
+            for tg in st.targets:
+                ev.assign(tg, v, lenv)
+        elif isinstance(st, ast.Try):
+            _need(len(st.body) == 1 and not st.orelse and not st.finalbody, "try: one statement")
+            writes = [n for n in ast.walk(st) if isinstance(n, ast.Assign)]
+            _need(len(writes) == 2, "the optimised and the row-wise computation")
+            cols = set()
+            for w in writes:
+                tg = w.targets[0]
+                _need(isinstance(tg, ast.Subscript) and isinstance(tg.value, ast.Name)
+                      and tg.value.id == xt[0] and isinstance(tg.slice, ast.Tuple)
+                      and len(tg.slice.elts) == 2 and ast.unparse(tg.slice.elts[0]) == ":"
+                      and isinstance(tg.slice.elts[1], ast.Name), "Xt[:, counter] = ...", w)
+                cols.add(tg.slice.elts[1].id)
+            _need(len(cols) == 1, "both computations write the same column")
+            counter = cols.pop()
+            v0 = ev.expr(writes[0].value, lenv)
+            v1 = ev.expr(writes[1].value, lenv)
+            _need(v0[0] == "call" and v0[1][0] == "a" and v0[1][2] == "squeeze"
+                  and v0[1][1][0] == "call" and v0[1][1][1] == ("s", "@func")
+                  and len(v0[1][1][2]) == 1, "func(interval, axis=-1).squeeze()", v0)
+            interval = v0[1][1][2][0]
+            _need(canon(v1) == canon(E(ev, "np.apply_along_axis(f, axis=2, arr=iv).squeeze()",
+                                       f=("s", "@func"), iv=interval)),
+                  "row-wise fallback computes the same feature of the same interval", v1)
+            _need(interval[0] == "i" and canon(interval[1]) == canon(X) and interval[2][0] == "t"
+                  and len(interval[2][1]) == 3
+                  and interval[2][1][0] == ("sl", NONE, NONE, NONE)
+                  and interval[2][1][1] == ("sl", NONE, NONE, NONE)
+                  and interval[2][1][2][0] == "sl" and interval[2][1][2][3] == NONE,
+                  "interval = X[:, :, lo:hi]", interval)
+            lo_hi = interval[2][1][2][1:3]
+            wrote += 1
+        elif isinstance(st, ast.AugAssign):
+            _need(isinstance(st.target, ast.Name) and isinstance(st.op, ast.Add)
+                  and ev.expr(st.value, lenv) == C(1), "counter += 1", None)
+            _need(counter is None or st.target.id == counter, "the column counter advances")
+            counter = counter or st.target.id
+            named += 1
+        elif isinstance(st, ast.Expr) and isinstance(st.value, ast.Call) \
+                and isinstance(st.value.func, ast.Attribute) and st.value.func.attr == "append":
+            pass                                      # column label
+        else:
+            raise Unsupported("statement in the feature loop: " + ast.unparse(st).split("\n")[0])
+    _need(wrote == 1 and named == 1 and counter is not None and env.get(counter) == C(0),
+          "one write per (feature, interval) at a counter that starts at 0 and advances by 1")
+    env2 = zenv(a=("s", "@a"), b=("s", "@b"))
+    d.addz("gen_rife_lo", "a b", "Z", zexpr(lo_hi[0], env2))
+    d.addz("gen_rife_hi", "a b", "Z", zexpr(lo_hi[1], env2))
     # the counter advances once per inner iteration: position = outer * n_inner + inner
-    if loops[ko] == "F":
-        pos = "((f * ni) + v)"
-    else:
-        pos = "((v * nf) + f)"
-    d.addz("gen_rife_pos", "nf ni f v", "Z", pos)
-    _same(tr[12], "Xt = pd.DataFrame(Xt)", "stmt 13")
-    _same(tr[13], "Xt.columns = columns", "stmt 14")
-    _same(tr[14], "return Xt", "stmt 15")
+    d.addz("gen_rife_pos", "nf ni f v", "Z",
+           "((f * ni) + v)" if kinds[outer] == "F" else "((v * nf) + f)")
 
 
 # ------------------------------------------------------------------------------------------------
-# series/impute.py : data flow of the drift branch, pandas call of each closed-form method
+# series/impute.py
+
+IMPUTE_REF = '''
+class Ref:
+    def transform(self, Z, X=None):
+        self.check_is_fitted()
+        self._check_method()
+        Z = check_series(Z)
+        if self.missing_values:
+            Z = Z.replace(to_replace=self.missing_values, value=np.nan)
+        if self.method == "random":
+            if isinstance(Z, pd.DataFrame):
+                Z = Z.copy()
+                for col in Z:
+                    Z[col] = Z[col].apply(
+                        lambda i: self._get_random(Z[col]) if np.isnan(i) else i)
+            else:
+                Z = Z.apply(lambda i: self._get_random(Z) if np.isnan(i) else i)
+        elif self.method == "constant":
+            Z = Z.fillna(value=self.value)
+        elif self.method in ["backfill", "bfill", "pad", "ffill"]:
+            Z = Z.fillna(method=self.method)
+        elif self.method in ["drift", "forecaster"]:
+            if self.method == "forecaster":
+                forecaster = clone(self.forecaster)
+            else:
+                forecaster = PolynomialTrendForecaster(degree=1)
+            fh_ins = -np.arange(len(Z))
+            if isinstance(Z, pd.DataFrame):
+                Z = Z.copy()
+                for col in Z:
+                    forecaster.fit(y=_H_fit_col)
+                    Z[col] = _H_into_col.fillna(value=forecaster.predict(fh=fh_ins))
+            else:
+                forecaster.fit(y=_H_fit)
+                Z = _H_into.fillna(value=forecaster.predict(fh=fh_ins))
+        elif self.method == "mean":
+            Z = Z.fillna(value=Z.mean())
+        elif self.method == "median":
+            Z = Z.fillna(value=Z.median())
+        elif self.method in ["nearest", "linear"]:
+            Z = Z.interpolate(method=self.method)
+        else:
+            raise ValueError("")
+        return Z.fillna(method="ffill").fillna(method="backfill")
+'''
 
 
 def _impute(repo, d):
-    mod = _load(repo, "sktime/transformations/series/impute.py")
-    tr = _body(_find(mod, "Imputer.transform"))
-    chain = [s for s in tr if isinstance(s, ast.If) and _u(s.test) == "self.method == 'random'"]
-    _need(len(chain) == 1, "the method dispatch `if self.method == 'random': ... elif ...`")
-    idx = tr.index(chain[0])
-    _need(idx + 3 == len(tr), "dispatch is followed by the final fill and the return")
-    _same(tr[idx + 1], "Z = Z.fillna(method='ffill').fillna(method='backfill')",
-          "final fill of first / last elements")
-    _same(tr[idx + 2], "return Z", "return")
-    branches = {}
-    node = chain[0]
-    while True:
-        branches[_u(node.test)] = node.body
-        if len(node.orelse) == 1 and isinstance(node.orelse[0], ast.If):
-            node = node.orelse[0]
-        else:
-            _need(len(node.orelse) == 1 and isinstance(node.orelse[0], ast.Raise),
-                  "dispatch ends with raise ValueError")
-            break
-    pins = {
-        "self.method == 'constant'": "Z = Z.fillna(value=self.value)",
-        "self.method in ['backfill', 'bfill', 'pad', 'ffill']": "Z = Z.fillna(method=self.method)",
-        "self.method == 'mean'": "Z = Z.fillna(value=Z.mean())",
-        "self.method == 'median'": "Z = Z.fillna(value=Z.median())",
-        "self.method in ['nearest', 'linear']": "Z = Z.interpolate(method=self.method)",
-    }
-    for test, text in pins.items():
-        _need(test in branches and len(branches[test]) == 1, "branch `%s`" % test)
-        _same(branches[test][0], text, "branch `%s`" % test)
-    key = "self.method in ['drift', 'forecaster']"
-    _need(key in branches, "drift / forecaster branch")
-    b = branches[key]
-    _need(len(b) == 4, "drift branch has %d statements, expected 4" % len(b))
-    sel = b[0]
-    _need(isinstance(sel, ast.If) and _u(sel.test) == "self.method == 'forecaster'"
-          and len(sel.orelse) == 1
-          and _u(sel.orelse[0]) == "forecaster = PolynomialTrendForecaster(degree=1)",
-          "drift uses PolynomialTrendForecaster(degree=1)", sel)
-    _same(b[1], "fh_ins = -np.arange(len(Z))", "in-sample horizon over every position")
-    fill = "Z.fillna(method='ffill').fillna(method='backfill')"
-    st = b[2]
-    _need(isinstance(st, ast.Assign) and len(st.targets) == 1 and _u(st.value) == fill
-          and _u(st.targets[0]) in ("Z", "Z_aux"), "heuristic ffill / backfill before fitting", st)
-    filled = _u(st.targets[0])                # the name that holds the filled data
-    uni = b[3]
-    _need(isinstance(uni, ast.If) and _u(uni.test) == "isinstance(Z, pd.DataFrame)"
-          and len(uni.orelse) == 3, "frame / series split", uni)
-    fit, pred, fillst = uni.orelse
-    _need(isinstance(fit, ast.Expr) and isinstance(fit.value, ast.Call)
-          and _u(fit.value.func) == "forecaster.fit" and not fit.value.args
-          and len(fit.value.keywords) == 1 and fit.value.keywords[0].arg == "y",
-          "forecaster.fit(y=...)", fit)
-    fit_on = _u(fit.value.keywords[0].value)
-    _same(pred, "Z_pred = forecaster.predict(fh=fh_ins)", "in-sample prediction")
-    _need(isinstance(fillst, ast.Assign) and _u(fillst.targets[0]) == "Z"
-          and isinstance(fillst.value, ast.Call) and _u(fillst.value.func).endswith(".fillna")
-          and _u(fillst.value.keywords[0].value) == "Z_pred", "Z = <series>.fillna(value=Z_pred)", fillst)
-    fill_into = _u(fillst.value.func)[:-len(".fillna")]
-    # after `Z = Z.fillna(..)` the name Z itself is the filled copy; after `Z_aux = ..` Z is the input
+    m, rev, aev = site(repo, "sktime/transformations/series/impute.py", "Imputer", IMPUTE_REF,
+                       ["transform"], opaque=("_check_method", "_get_random"))
+    h = m.holes
+    zin = E(aev, "z.replace(to_replace=self.missing_values, value=np.nan) "
+                 "if self.missing_values else z", z=E(aev, "check_series(Z)", Z=("s", "Z")))
+    filled = E(aev, "z.fillna(method='ffill').fillna(method='backfill')", z=zin)
+    col = abv(m, rev, "col")
 
-    def src(name):
-        _need(name in ("Z", "Z_aux"), "unknown data name %s in the drift branch" % name)
-        if name == filled:
+    def src(t, column):
+        if column:
+            _need(t[0] == "i" and t[2] == col, "a column of the frame", t)
+            t = t[1]
+        while t[0] == "call" and t[1][0] == "a" and t[1][2] == "copy" and not t[2] and not t[3]:
+            t = t[1][1]
+        if canon(t) == canon(zin):
+            return "ZOriginal"
+        if canon(t) == canon(filled):
             return "ZFilledCopy"
-        return "ZOriginal"
+        raise Unsupported("drift branch works on unknown data: " + show(t)[:300])
+    fit_on, fill_into = src(h["fit"], False), src(h["into"], False)
+    _need(src(h["fit_col"], True) == fit_on and src(h["into_col"], True) == fill_into,
+          "the frame branch treats every column like the series branch")
     d.q.append("Inductive zsrc := ZOriginal | ZFilledCopy.\n"
                "Definition gen_drift_fit_on : zsrc := %s.\n"
-               "Definition gen_drift_fill_into : zsrc := %s.\n" % (src(fit_on), src(fill_into)))
-    # the frame branch does the same per column
-    fr = uni.body
-    loop = [s for s in fr if isinstance(s, ast.For)]
-    _need(len(loop) == 1 and _u(loop[0].target) == "col" and len(loop[0].body) == 3,
-          "frame branch loops over the columns")
-    _same(loop[0].body[0], "forecaster.fit(y=%s[col])" % fit_on, "frame branch fits on the same data")
-    _same(loop[0].body[1], "Z_pred = forecaster.predict(fh=fh_ins)", "frame branch prediction")
-    _same(loop[0].body[2], "Z[col] = %s[col].fillna(value=Z_pred)" % fill_into,
-          "frame branch fills the same data")
+               "Definition gen_drift_fill_into : zsrc := %s.\n" % (fit_on, fill_into))
 
 
 HEADER = """(* GENERATED by translator/closedform_c14.py from the sktime sources -- do not edit.
@@ -711,7 +713,8 @@ def translate(repo):
     _padder(repo, d)
     _truncation(repo, d)
     _interpolate(repo, d)
-    _segment(repo, d)
+    _interval_segmenter(repo, d)
+    _sliding(repo, d)
     _paa(repo, d)
     _rife(repo, d)
     _impute(repo, d)
@@ -725,4 +728,5 @@ def translate(repo):
 
 if __name__ == "__main__":
     import sys
+    sys.path.insert(0, os.path.dirname(os.path.dirname(os.path.abspath(__file__))))
     print(translate(sys.argv[1] if len(sys.argv) > 1 else "/repo")["C14/Gen.v"])
